@@ -846,6 +846,10 @@ func ruleACC(c *Ctx) []Obligation {
 			if c.mdASTNodes()[k] && len(tags) == 0 {
 				tags = append(tags, "md")
 			}
+			// accessors that carry a written type (Typ(), ElemType(), ContentType(), RetType() …)
+			if rt := typeKey(sig.Results().At(0).Type()); rt == "ast.Type" || strings.HasSuffix(rt, "Type") && strings.HasPrefix(rt, "ast.") || strings.HasPrefix(rt, "*ast.") && strings.HasSuffix(rt, "Type") {
+				tags = append(append([]string{}, tags...), "typeacc")
+			}
 			o := Obligation{Key: "ast." + key, Pos: c.pos(m.Pos()), Tags: tags}
 			ci := called[key]
 			switch {
